@@ -368,8 +368,8 @@ def run_property(prop, tier, only, jobs):
         cmds = []
         kani_wall = 0.0
         for (crate, z3), hs in by_crate.items():
-            timeout = 4 * 3600 if tier == 'thorough' else 1500
-            res, wall, cmd, logp = run_kani(crate, hs, jobs, timeout, harness_timeout=os.environ.get('VERIF_HARNESS_TIMEOUT', '30m' if tier == 'thorough' else '10m'), z3=z3)
+            timeout = 4 * 3600 if tier == 'thorough' else 3600
+            res, wall, cmd, logp = run_kani(crate, hs, jobs, timeout, harness_timeout=os.environ.get('VERIF_HARNESS_TIMEOUT', '30m' if tier == 'thorough' else '20m'), z3=z3)
             kani_wall += wall
             cmds.append(cmd if len(cmd) < 400 else cmd[:400] + ' ...')
             for h in hs:
